@@ -254,6 +254,7 @@ Proof. cbn [wf]. rewrite wf_all_list. reflexivity. Qed.
 Lemma wf_ops_contained pre plain post :
   wf (CContained pre plain post) =
     (nonnil pre || nonnil plain || nonnil post) && forallb nonbits plain
+    && (nonnil plain || negb (nonnil post))
     && forallb wf pre && forallb wf post.
 Proof. cbn [wf]. rewrite !wf_all_list. reflexivity. Qed.
 Lemma wf_ops_with fields :
